@@ -171,6 +171,17 @@ class C17(Prop):
             out.append({"stream": "split", "tag": "rnd:split",
                         "input": {"s": s, "d": d, "m": rng.choice([None, None, 0, 1, 2, 3]), "esc": esc,
                                   "trim": rng.random() < 0.6}})
+        # (2b) structured: items ending in escape runs of every parity, several escaped delimiters per text
+        #      (the re-join / restart logic only shows with two or more re-joins away from the first item)
+        for _ in range(500 if quick else 12000):
+            d, esc = rng.choice(DELIMS), "\\"
+            items = []
+            for _ in range(rng.randint(2, 8)):
+                body = "".join(rng.choice("abk") for _ in range(rng.randint(0, 2)))
+                items.append(body + esc * rng.choice([0, 0, 1, 1, 2, 2, 3, 4]))
+            out.append({"stream": "split", "tag": "runs:split",
+                        "input": {"s": d.join(items), "d": d, "m": rng.choice([None, None, None, 0, 2, 3]), "esc": esc,
+                                  "trim": rng.random() < 0.7}})
         # (3) join then deserialize_list
         for _ in range(500 if quick else 10000):
             d, esc = rng.choice(DELIMS), rng.choice(ESCS)
